@@ -3,8 +3,8 @@
 (* Stage (e) for C49: validates what the real listener validation          *)
 (* (xdsresource listener decoder) and filterChainManager.lookup did.       *)
 (*   lks  lks : table of lookups used by the following lines               *)
-(*   cfg  cfg, ok (listener accepted), res : one outcome per lookup of the *)
-(*        table (chain index, 0 default chain, -1 no chain / refused,      *)
+(*   cfg  cfg, ok (listener accepted), li : 0-based indices into the table, *)
+(*        res : one outcome per index (chain index, 0 default chain, -1 no chain / refused,      *)
 (*        -2 "multiple matching filter chains", -3 unknown chain)          *)
 (***************************************************************************)
 EXTENDS FilterChain, TraceIO
@@ -17,7 +17,7 @@ CheckCfg(e) ==
   IF ~e.ok THEN Drift(Valid(e.cfg), "C49_RejectedUnambiguousConfig", l)
   ELSE /\ Mark(Ambiguous(e.cfg), "C49_AmbiguousConfigAccepted", l)
        /\ Drift(~Valid(e.cfg) /\ ~Ambiguous(e.cfg), "C49_EmptyConfigAccepted", l)
-       /\ Mark(~Ambiguous(e.cfg) /\ \E i \in 1..Len(e.res) : e.res[i] # Select(e.cfg, lks[i]), "C49_Selection", l)
+       /\ Mark(~Ambiguous(e.cfg) /\ \E i \in 1..Len(e.res) : e.res[i] # Select(e.cfg, lks[e.li[i] + 1]), "C49_Selection", l)
 
 Next == /\ l <= TLen /\ l' = l + 1 /\ Consumed(l)
         /\ CASE Ev.ev = "lks"   -> lks' = Ev.lks
